@@ -196,7 +196,8 @@ def run_cli_case(case):
     with Scratch('c02cli') as d:
         wl = fq.load_whitelists(os.path.join(fq.REPO_DEMUX, 'barcodes'))
         iwl = fq.load_whitelists(os.path.join(fq.REPO_DEMUX, 'indices'))
-        lib, files, all_pairs, files_on_disk, input_form, lanes = c01.cli_build_inputs(r, d, name, False, wl, iwl, 8800 + case['j'], acc)
+        lib, files, all_pairs, files_on_disk, input_form, lanes = c01.cli_build_inputs(r, d, name, False, wl, iwl, 8800 + case['j'], acc,
+                                                                                        input_form=['filelist', 'shuffled', 'duplicate', 'filelist', 'sorted', 'shuffled'][case['j'] % 6])
         out = os.path.join(d, 'out')
         drv = os.path.join(d, 'drv.py')
         with open(drv, 'w') as f:
